@@ -119,7 +119,7 @@ def check(ctx):
     o3 = Ob('C11.3', 'K5', 'whenever the reservation is released it is released completely and the field is None again before the entry point returns')
     o4 = Ob('C11.4', 'K3', 'a failure releases the reservation')
     dom = dv.base_domain(P, c)
-    dom['_block_input'] = ['F']
+    dom['_block_input'] = ['F', 'T']      # a blocked input refuses parts: nothing may be reserved for a part that is then refused
     dom['_reserved_resources'] = ['N', 'S']
     dom['_resources_for_processing'] = ['N', 'S']
     dom['#release'] = ['T', 'F', 'P']
